@@ -102,6 +102,10 @@ func mutatingDoc(r *Rng) []interface{} {
 			doc = append(doc, nRaw(sVar("rh", eCall(eId("range"), eNum("3")))), nRaw(sExpr(eCall(eDot(eId("rh"), "pop")))), nText("rh="),
 				nBuf(eCall(eDot(eId("rh"), "join"), eStr(",")), true), nText(";"))
 		},
+		// two top-level data keys that differ only in the case of their first letter: both define the variable `foo`
+		func() {
+			doc = append(doc, nText("foo="), nBuf(eId("foo"), true), nText("/Foo="), nBuf(eId("Foo"), true), nText("/bar="), nBuf(eId("bar"), true), nText(";"))
+		},
 		// iteration over an unordered data map whose keys mix numerals, padded numerals, signs and letters
 		func() {
 			doc = append(doc, nEach("kv", "kk", eId("km"), nBuf(eId("kk"), true), nText("="), nBuf(eId("kv"), true), nText(",")))
@@ -118,6 +122,7 @@ func mutatingDoc(r *Rng) []interface{} {
 func mutData(r *Rng) J {
 	return J{"xs": []interface{}{3, 1, 2, r.Range(0, 9)}, "o": J{"name": "n", "k": 1, "list": []interface{}{"b", "a"}, "zz": true, "aa": nil, "mm": 2.5},
 		"s": "str", "nested": []interface{}{[]interface{}{1, 2}, []interface{}{"x"}},
+		"Foo": "upper", "foo": "lower", "Bar": 1, "bar": 2,
 		"km": J{"2": "a", "10": "b", "1a": "c", "01": "d", "1": "e", "+7": "f", "7": "g", "b": "h", "B": "i", "-1": "j", "1e1": "k"}}
 }
 
